@@ -193,9 +193,11 @@ def pair_histories(tier):
                     j = (j + stride) % n
                 seq.append(j)
                 docs = [D.PROBES[names[x]] for x in seq]
-                out.append(('pairs_same_instance', [{'k': 'CTX', 'R': rid, 'opts': opts, 'exit': 'normal',
-                                                     'steps': [{'k': 'RENDER', 'doc': d} for d in docs]}]))
-                if not opts:
+                # quick: each ordered pair in one of the two modes (by stride parity); thorough: in both
+                if tier == 'thorough' or stride % 2 == 1 or opts:
+                    out.append(('pairs_same_instance', [{'k': 'CTX', 'R': rid, 'opts': opts, 'exit': 'normal',
+                                                         'steps': [{'k': 'RENDER', 'doc': d} for d in docs]}]))
+                if not opts and (tier == 'thorough' or stride % 2 == 0):
                     out.append(('pairs_separate_calls', [{'k': 'MD', 'R': rid, 'opts': {}, 'doc': d} for d in docs]))
     return out
 
